@@ -109,7 +109,7 @@ package cbor
 // (defined by: every byte of it, from the most significant, and its range).
 //@ uf beValue(bytearray, int, int) uint64
 //@ uf beIs(bytearray, int, int, uint64) bool
-//@ axiom beIs_intro: forall a bytearray, o int, nf int, n uint64 :: (0 <= nf && nf <= 8 && (forall k int :: 0 <= k && k < nf ==> byte(n >> (8*uint64(nf-1-k))) == a[o+k]) && (nf < 8 ==> n < uint64(1) << (8*uint64(nf)))) ==> beIs(a, o, nf, n)
+//@ axiom beIs_intro: forall a bytearray, o int, nf int, n uint64 :: (0 <= nf && nf <= 8 && (forall j int :: o <= j && j < o + nf ==> a[j] == byte(n >> (8*uint64(o+nf-1-j)))) && (nf < 8 ==> n < uint64(1) << (8*uint64(nf)))) ==> beIs(a, o, nf, n)
 //@ axiom beIs_value: forall a bytearray, o int, nf int, n uint64 :: beIs(a, o, nf, n) ==> n == beValue(a, o, nf)
 
 //@ def nfOfAI(ai byte) int = ai == 24 ? 1 : (ai == 25 ? 2 : (ai == 26 ? 4 : (ai == 27 ? 8 : 0)))
@@ -139,7 +139,7 @@ package cbor
 //@   assigns spos(d.r)
 //@   loop 0:
 //@     invariant 0 <= i && i <= nfollow && len(follow) == nfollow && 1 <= nfollow && nfollow <= 8
-//@     invariant forall k int :: 0 <= k && k < i ==> byte(n >> (8*uint64(i-1-k))) == follow[k]
+//@     invariant forall k int :: 0 <= k && k < i ==> follow[k] == byte(n >> (8*uint64(i-1-k)))
 //@     invariant i < 8 ==> n < uint64(1) << (8*uint64(i))
 //@     decreases nfollow - i
 
